@@ -54,6 +54,15 @@ package allocate
 // [successIsCommittable]); after a failed attempt the statement is discarded (precondition of Discard: well-formed
 // log, [logStaysWellFormed]) and nothing is committed. setLastStartTimestamp and PushJob get a non-nil job.
 // C10: no panic on any path (a non-empty order yields a job; ssn.Statement() is a fresh statement).
-// (Execute block parked in /tmp/exec2-w/allocate_execute_block.txt until PushJob's preconditions at the re-push are settled with helper pq)
+//@ func (*allocateAction).Execute
+//@   props C05 C06 C03 C16 C10
+//@   usestable Session.ClusterInfo JobsOrderByQueues.ssn ClusterInfo.Queues map[common_info.QueueID]*queue_info.QueueInfo PodGroupInfo.Queue
+//@   requires ssn != nil && ssn.ClusterInfo != nil && ssn.Config != nil && sessionJobsOK(ssn)
+//@   requires [queueDepthNotZero] ssn.GetJobsDepth("allocate") != 0
+//@   modifies *
+//@   loop 1
+//@     modifies *
+//@   ensures [orderDrained] utils.orderEmpty(jobsOrderByQueues)
+//@ end
 //@ define sessionJobsOK(ssn *framework.Session) bool = (forall k in ssn.ClusterInfo.PodGroupInfos :: podgroup_info.allTasksOK(ssn.ClusterInfo.PodGroupInfos[k]) && podgroup_info.setsOK(ssn.ClusterInfo.PodGroupInfos[k])) && (forall q in ssn.ClusterInfo.Queues :: ssn.ClusterInfo.Queues[q] != nil)
 // ---- end exec2 ----
